@@ -60,9 +60,18 @@ func (s c14tF) Format(f fmt.State, verb rune) {
 	c14Calls = append(c14Calls, 'F')
 	fmt.Fprintf(f, fmt.FormatString(f, verb), "M")
 }
-func (s c14tSE) String() string  { c14Calls = append(c14Calls, 'S'); return "M" }
-func (s c14tSE) Error() string   { c14Calls = append(c14Calls, 'E'); return "M" }
-func (s *c14tPS) String() string { c14Calls = append(c14Calls, 'S'); return "M" }
+func (s c14tSE) String() string { c14Calls = append(c14Calls, 'S'); return "M" }
+func (s c14tSE) Error() string  { c14Calls = append(c14Calls, 'E'); return "M" }
+
+// fmt calls a pointer-receiver String() also on a typed NIL *T (a nil element of map[K]*T, a nil *T field): there is no value
+// and no secret behind it, and the operand-tree notation renders it as `Z` like every other nil — such calls are not leaves
+// of the model and are not recorded (seeds 15839 / 23758 of the thorough tier drew such shapes).
+func (s *c14tPS) String() string {
+	if s != nil {
+		c14Calls = append(c14Calls, 'S')
+	}
+	return "M"
+}
 
 type c14TD struct {
 	spec string
